@@ -90,6 +90,10 @@ MM_METHODS = [
     ("self-assign", ", p", ["self.extra = p", "return self.extra + '.'"], ["'1'"]),
     ("one-line", ", p", None, ["'1'"]),
     ("recursive", ", n", ["return 'r' if n == 0 else 'x' + self.mth(n - 1)"], ["2"]),
+    ("default-uses-import", ", sep=xlib.LV", ["return sep + '.'"], ["", "'S'"]),
+    ("default-uses-from-import", ", sep=LV2", ["return sep + '.'"], ["", "'S'"]),
+    ("annotation-uses-import", ", p: xlib.LV.__class__ = 'x'", ["return p + '.'"], ["", "'S'"]),
+    ("default-uses-global", ", sep=GV", ["return sep + '.'"], ["", "'S'"]),
 ]
 MM_NAMES = ["mth", "moved", "other"]
 
@@ -117,6 +121,27 @@ def mm_files(dest, meth, in_client):
     else:
         src += "\n\n" + uses
     files["xa.py"] = src
+    return files
+
+
+# ---------------------------------------------------------------- the moving module's own imports
+OWN_LIB = {
+    "xpk/__init__.py": "", "xpk/xutil.py": "U = 'xpk.xutil.U'\n", "xpk/xm.py": "MV = 'xpk.xm.MV'\n",
+    "xpk/xs/__init__.py": "", "xpk/xs/xutil.py": "U = 'xpk.xs.xutil.U'\n", "xpk/xs/xe.py": "EV = 'xpk.xs.xe.EV'\n",
+}
+OWN_STYLES = [("from . import xutil", "xutil.U"), ("from .. import xutil as up", "up.U"), ("from .xutil import U", "U"), ("from ..xutil import U as U2", "U2"),
+              ("from ..xm import MV", "MV"), ("from .. import xm", "xm.MV"), ("import xpk.xutil", "xpk.xutil.U"), ("from xpk.xs import xutil as ax", "ax.U"),
+              ("from . import xe", "xe.EV")]
+OWN_OPS = [("P", "xpk/xs/xd.py"), ("M", "xpk/xs/xd.py", ""), ("M", "xpk/xs/xd.py", "xpk"), ("R", "xpk/xs/xd.py", "xn")]
+
+
+def own_files(block):
+    stmts = [OWN_STYLES[i] for i in block]
+    src = "\n".join(s for s, _ in stmts) + "\n\nDV = 'xpk.xs.xd.DV'\n" + "".join("print(%r, %s)\n" % (r, r) for _, r in stmts)
+    files = dict(OWN_LIB)
+    files["xpk/xs/xd.py"] = src
+    files["xc.py"] = "import xpk.xs.xd\n\nprint(xpk.xs.xd.DV)\n"
+    files["xpk/xs/xc2.py"] = "from . import xd\n\nprint(xd.DV)\n"
     return files
 
 
@@ -176,6 +201,10 @@ class C05(Check):
                     for e in range(len(EXTRA)):
                         out.append({"op": oi, "loc": loc, "block": [i], "extra": [e, "after"]})
                         out.append({"op": oi, "loc": loc, "block": [i], "extra": [e, "before"]})
+        for oi in range(len(OWN_OPS)):
+            n = len(OWN_STYLES)
+            for b in [[i] for i in range(n)] + [[i, j] for i in range(n) for j in range(n) if i != j]:
+                out.append({"own": [oi, b]})
         for dest in MM_DESTS:
             for mi in range(len(MM_METHODS)):
                 for name in MM_NAMES:
@@ -191,6 +220,8 @@ class C05(Check):
         res = {"n": 0, "nt": [], "out": {}, "mech": {}, "fails": [], "refused": 0, "passfeat": []}
         if "mm" in case:
             return self.run_mm(case, res, triage)
+        if "own" in case:
+            return self.run_own(case, res, triage)
         op = OPS[case["op"]]
         loc = case["loc"]
         st = styles_for(op, loc)
@@ -273,6 +304,64 @@ class C05(Check):
         res["sample"] = {"operation": list(op), "client": files[cpath]}
         return res
 
+
+    def run_own(self, case, res, triage):
+        oi, block = case["own"]
+        op = OWN_OPS[oi]
+        files = own_files(block)
+        res["n"] = 1
+        if compiles(files):
+            res["out"]["invalid-client"] = 1
+            return res
+        base = run_project(files)
+        if any(v[1] for v in base.values()):
+            res["harness"] = "own-imports base program raises: %r" % (base,)
+            return res
+        ctx = self.bench.open(files)
+        try:
+            def make(p):
+                if op[0] == "M":
+                    return move.create_move(p, p.get_resource(op[1])).get_changes(p.get_folder(op[2]) if op[2] else p.root)
+                if op[0] == "R":
+                    return Rename(p, p.get_resource(op[1])).get_changes(op[2])
+                return ModuleToPackage(p, p.get_file(op[1])).get_changes()
+            status, payload = ctx.refactor(make)
+            new = ctx.tree()
+        finally:
+            ctx.close()
+        stmts = [OWN_STYLES[i] for i in block]
+        feats = sorted({"op:own-imports", "op:" + "/".join(op), "nstmts:%d" % len(stmts)} | {"own:" + s for s, _ in stmts})
+        detail = {"operation": list(op), "moving module": files["xpk/xs/xd.py"]}
+        res["mech"]["own-" + op[0]] = 1
+
+        def fail(k, extra):
+            res["fails"].append({"kind": k, "features": feats, "size": len(stmts), "detail": dict(detail, **extra), "case": case})
+        if status == "refused":
+            res["refused"] = 1
+            res["out"]["refused"] = 1
+            return res
+        if status != "done":
+            fail(status if status != "internal" else "internal:" + str(payload).split(":")[0], {"message": str(payload)})
+            return res
+        res["nt"].append(h8(["own", list(op), files["xpk/xs/xd.py"]]))
+        changed = {k: v for k, v in new.items() if files.get(k) != v}
+        bad = compiles(new)
+        if bad:
+            fail("syntax-error", {"result": changed, "message": bad[1]})
+            return res
+        got = run_project(new)
+        broken = {m: v for m, v in got.items() if v[1] is not None}
+        if broken:
+            fail("module-does-not-import", {"result": changed, "broken": broken})
+            return res
+        for cmod in ("xc", "xpk.xs.xc2"):
+            if got.get(cmod) != base.get(cmod):
+                fail("behaviour-differs", {"result": changed, "client": cmod, "before": base.get(cmod), "after": got.get(cmod)})
+                return res
+        res["out"]["preserved"] = 1
+        if triage:
+            res["passfeat"].append(feats)
+        return res
 
     def run_mm(self, case, res, triage):
         dest, mi, name, in_client = case["mm"]
